@@ -13,9 +13,10 @@ import (
 // searchSites: the calls of Table.SearchData in the client Query/Scan methods.
 type searchSite struct {
 	role, method string
-	fn           *ssa.Function
-	call         *ssa.Call
+	fn           *ssa.Function // the client's Query / Scan
+	call         *ssa.Call     // the call of SearchData – in fn, or in a package-local helper fn calls
 	qi           ssa.Value
+	ctx          []callCtx // the chain of calls from fn to the function that contains `call`
 }
 
 func (e *Engine) searchSites() []searchSite {
@@ -30,9 +31,9 @@ func (e *Engine) searchSites() []searchSite {
 			if fn == nil {
 				continue
 			}
-			instrs(fn, func(in ssa.Instruction) {
+			e.walkLocal(role, fn, 2, func(in ssa.Instruction, ctx []callCtx) {
 				if c, ok := in.(*ssa.Call); ok && c.Call.StaticCallee() == sd {
-					out = append(out, searchSite{role, m, fn, c, qiArg(c)})
+					out = append(out, searchSite{role, m, fn, c, qiArg(c), append([]callCtx{}, ctx...)})
 				}
 			})
 		}
@@ -44,11 +45,31 @@ func (e *Engine) searchSites() []searchSite {
 func (e *Engine) queryInputField(s searchSite, name string) []string {
 	seen := map[string]bool{}
 	var out []string
-	for _, v := range e.structFieldStores(s.qi, name) {
-		for _, o := range e.origins(v) {
+	add := func(os []string) {
+		for _, o := range os {
 			if !seen[o] {
 				seen[o] = true
 				out = append(out, o)
+			}
+		}
+	}
+	vals := e.structFieldStores(s.qi, name)
+	for _, v := range vals {
+		add(e.origins(v))
+	}
+	if len(vals) == 0 {
+		// the input is built elsewhere: by a helper or by a closure handed down the chain of calls – follow the struct
+		// literal(s) it can be, in the calling context
+		t := &tracer{e: e, seen: map[string]bool{}, out: map[string]bool{}}
+		for _, lit := range t.structLiterals(s.qi, s.ctx, 0) {
+			for _, r := range refsOf(lit.al) {
+				fa, ok := r.(*ssa.FieldAddr)
+				if !ok || fieldOf(fa) == nil || fieldOf(fa).Name() != name {
+					continue
+				}
+				for _, st := range storesTo(fa) {
+					add(e.originsCtx(st.Val, lit.ctx))
+				}
 			}
 		}
 	}
@@ -792,6 +813,32 @@ func c02R3(e *Engine) {
 	e.check(seedOK, "R3", e.fname(mk)+":seed-from-Scan-flag", e.pos(mk.Pos()), "without a key condition the verdict starts from QueryInput.Scan (true only for scans)")
 }
 
+// recordValues: v itself, or – when v is a field of a local record (a result record handed back by a helper) – the
+// values stored into that field anywhere in the package.
+func (e *Engine) recordValues(v ssa.Value) []ssa.Value {
+	var nt *types.Named
+	idx := -1
+	switch x := strip(v).(type) {
+	case *ssa.Field:
+		nt, idx = namedOf(x.X.Type()), x.Field
+	case *ssa.UnOp:
+		if fa, ok := x.X.(*ssa.FieldAddr); ok && x.Op == token.MUL {
+			nt, idx = namedOf(fa.X.Type()), fa.Field
+		}
+	}
+	if nt == nil || idx < 0 || !e.localRecord(nt) {
+		return []ssa.Value{v}
+	}
+	var out []ssa.Value
+	for _, st := range e.recordFieldStores(nt, idx) {
+		out = append(out, st.Val)
+	}
+	if len(out) == 0 {
+		return []ssa.Value{v}
+	}
+	return out
+}
+
 func c02R4(e *Engine) {
 	for _, s := range e.searchSites() {
 		construct := s.role + ".Client." + s.method
@@ -813,9 +860,11 @@ func c02R4(e *Engine) {
 			}
 			switch f.Name() {
 			case "Items":
-				if c, isC := strip(st.Val).(*ssa.Call); isC && len(c.Call.Args) == 1 && c.Call.Args[0] == x {
-					if ok2, _ := isConversion(e, c.Call.StaticCallee()); ok2 {
-						itemsOK = true
+				for _, v := range e.recordValues(st.Val) {
+					if c, isC := strip(v).(*ssa.Call); isC && len(c.Call.Args) == 1 && c.Call.Args[0] == x {
+						if ok2, _ := isConversion(e, c.Call.StaticCallee()); ok2 {
+							itemsOK = true
+						}
 					}
 				}
 			case "Count":
@@ -846,7 +895,11 @@ func c02R4(e *Engine) {
 					}
 					return false
 				}
-				countOK = walk(st.Val, 0)
+				for _, v := range e.recordValues(st.Val) {
+					if walk(v, 0) {
+						countOK = true
+					}
+				}
 			}
 		})
 		e.check(itemsOK && countOK, "R4", construct+":count-and-items", e.ipos(s.call), "Items = conv(X) (%v) and Count = len(X) (%v) for the same X = SearchData result", itemsOK, countOK)
@@ -909,7 +962,7 @@ func c02R5(e *Engine) {
 			e.check(okScan, "R5", construct+"Scan", e.ipos(s.call), "Query does not set the Scan flag (← %v)", scan)
 			// default true when the request leaves the direction out
 			def := false
-			instrs(s.fn, func(in2 ssa.Instruction) {
+			instrsDeep(s.fn, func(in2 ssa.Instruction) { // (also in a closure that builds the input)
 				st, ok := in2.(*ssa.Store)
 				if !ok {
 					return
